@@ -17,8 +17,17 @@ EXTENDS CacheDJudge, Json, IOUtils
 
 Rec == ndJsonDeserialize(IOEnv.TRACE)
 
-VARIABLES l, st, gh, rep, pred
-vars == <<l, st, gh, rep, pred>>
+VARIABLES l, st, gh, rep, pred, lp
+vars == <<l, st, gh, rep, pred, lp>>
+
+\* Lock grain: a run may also yield in front of every traced lock acquisition (sites L_AcqR / L_AcqW).  The span from a
+\* named site X to the next named site Y is then recorded as X -> L -> ... -> L -> Y.  The specification's action for X is
+\* applied when the span ends; the records before are sub-steps.  If no sub-step before the last changed anything that
+\* a snapshot shows (the point X sits right in front of the critical section), the last record IS the specification's step
+\* and is checked like any other.  Otherwise (an effect before a lock acquisition, or several critical sections in one
+\* span) the observed states are adopted as they come, the action is not predicted, and the judges that rely on the
+\* specification's locals of that actor stay silent until it starts its next command.
+IsL(x) == x \in {"L_AcqR", "L_AcqW"}
 
 -----------------------------------------------------------------------------
 (* JSON -> model values *)
@@ -43,7 +52,8 @@ StatsOf(a) == [hits |-> a[1], misses |-> a[2], added |-> a[3], deleted |-> a[4],
 AcksOf(arr) == [n \in {e.a : e \in SeqRange(arr)} |->
                   LET e == CHOOSE x \in SeqRange(arr) : x.a = n IN [done |-> e.done, st |-> IF e.done THEN e.st ELSE StPending]]
 
-CfgOf(c) == [max |-> c.max_weight, shards |-> c.shards, qsize |-> c.qsize, pool |-> c.pool, buffer |-> c.buffer,
+CfgOf(c) == [max |-> IF c.max_weight > Huge THEN Huge ELSE c.max_weight,   \* (a cache weight near i64::MAX: see HugeCfg)
+              shards |-> c.shards, qsize |-> c.qsize, pool |-> c.pool, buffer |-> c.buffer,
              wf_base |-> c.wf_base, wf_mod |-> IF c.wf_mod < 1 THEN 1 ELSE c.wf_mod, wf_ttl |-> c.wf_ttl,
              clock0 |-> c.clock0, hash |-> c.hash, dwf |-> c.default_weight_fn, counters |-> c.counters]
 
@@ -87,7 +97,8 @@ Adopted(P, r) ==
                         ELSE IF Len(P.chan) > r.s.chlen THEN SubSeq(P.chan, 1, r.s.chlen)
                         ELSE P.chan \o [j \in 1..(r.s.chlen - Len(P.chan)) |-> <<0>>],
                !.nextAck = Max2(P.nextAck, maxAck + 1), !.nextId = Max2(P.nextId, maxId + 1),
-               !.pc = [a \in DOMAIN P.pc |-> IF a \in DOMAIN r.pc THEN r.pc[a] ELSE P.pc[a]]]
+               \* (an actor inside a span keeps the site of the span)
+               !.pc = [a \in DOMAIN P.pc |-> IF a \in DOMAIN r.pc /\ ~IsL(r.pc[a]) THEN r.pc[a] ELSE P.pc[a]]]
 
 \* fields in which the prediction P differs from the observation (r, A = Adopted(P, r))
 DivFields(P, A, r, predRet) ==
@@ -115,8 +126,9 @@ DivFields(P, A, r, predRet) ==
 -----------------------------------------------------------------------------
 (* the trace machine *)
 
-Init == l = 1 /\ st = [none |-> TRUE] /\ gh = [none |-> TRUE] /\ pred = [none |-> TRUE] /\ rep = [div |-> <<>>, verdicts |-> <<>>, steps |-> 0, runs |-> 0,
-                                                                       unmodelled |-> {}, ndiv |-> 0, nverd |-> 0, oor |-> 0, sites |-> [x \in {} |-> 0]]
+Init == l = 1 /\ st = [none |-> TRUE] /\ gh = [none |-> TRUE] /\ pred = [none |-> TRUE] /\ lp = EmptyFn
+        /\ rep = [div |-> <<>>, verdicts |-> <<>>, steps |-> 0, runs |-> 0, unmodelled |-> {}, ndiv |-> 0, nverd |-> 0, oor |-> 0,
+                  sites |-> [x \in {} |-> 0], lsub |-> 0, lexact |-> 0, lsplit |-> 0]
 
 MaxKept == 40
 
@@ -135,6 +147,7 @@ DoReset(r) ==
   IN /\ st' = Adopted(S0, r)
      /\ gh' = GhostPreload(GhostInit(st'), r.freq, st'.cfg)
      /\ pred' = [none |-> TRUE]
+     /\ lp' = EmptyFn
      /\ rep' = [rep EXCEPT !.runs = @ + 1]
 
 \* the observation handed to the judges: the record plus whether the specification's locals of the actor can be trusted
@@ -143,15 +156,20 @@ Obs(r, sync, agree) == [t |-> r.t, run |-> r.run, i |-> r.i, actor |-> r.actor, 
 
 \* pred: the prediction for the current step (TLC does not memoise LET definitions that depend on the state, so every value
 \* that is used more than once is first bound to a primed variable and then read back)
-DoStep(r) ==
+DoStepK(r, trusted, span) ==
   LET a == r.actor
       isEnv == a = "env"
-      known == ~isEnv /\ a \in DOMAIN st.pc /\ st.pc[a] = r.site /\ r.site \in Modelled
+      \* a total cache weight near i64::MAX is outside the range of the specification's (32-bit) arithmetic: such runs are
+      \* only watched for panics and hangs (C17), nothing is predicted and no other judge is evaluated
+      hugeCfg == st.cfg.max >= Huge
+      known == trusted /\ ~hugeCfg /\ ~isEnv /\ a \in DOMAIN st.pc /\ st.pc[a] = r.site /\ r.site \in Modelled
   IN /\ pred' = LET inp == InpOf(r)
                     E == IF isEnv THEN [st |-> EffAdvance(st, r.op.d), ret |-> NoRet]
                          ELSE IF known THEN Eff(st, a, inp) ELSE [st |-> st, ret |-> NoRet]
                 IN [st |-> E.st, ret |-> E.ret, inp |-> inp]
-     /\ st' = LET A0 == Adopted(pred'.st, r) IN
+     /\ st' = LET \* (the record carries only the acknowledgements that changed: when the thread died in this step, the ones the
+                  \*  specification expected it to complete did not change)
+                  A0 == Adopted(IF r.next = "DEAD" THEN [pred'.st EXCEPT !.ack = st.ack] ELSE pred'.st, r) IN
               \* the position of a multi-key read follows the OBSERVED lookups (one C_Get step each), whatever the model predicted
               IF ~isEnv /\ IsCaller(a) /\ r.site \in {"C_Get", "C_Access"} /\ r.op.op \in {"get", "mget"} /\ a \in DOMAIN gh.obs
                  /\ r.next \in {"C_Get", "C_Access"}
@@ -168,34 +186,71 @@ DoStep(r) ==
                        q2 == IF pos = {} THEN st.queue ELSE LET i == CHOOSE x \in pos : TRUE IN SubSeq(st.queue, 1, i - 1) \o SubSeq(st.queue, i + 1, Len(st.queue))
                    IN [A0 EXCEPT !.queue = q2,
                                  !.lc[a] = IF r.site = "W_Drain" THEN NoLc ELSE [NoLc EXCEPT !.cmd = c, !.id = c.id, !.w = c.w, !.key = c.key]]
+              ELSE IF hugeCfg /\ a = "worker" /\ HasEv(r, "recv")
+              THEN [A0 EXCEPT !.lc[a].w = EvF(r, "recv")[4]]     \* (nothing is predicted in such a run: keep the weight at hand for J_C17)
               ELSE IF ~isEnv /\ a = "sweeper" /\ HasEv(r, "sweep")
               THEN [A0 EXCEPT !.lc[a].t = EvF(r, "sweep")[1], !.lc[a].shard = EvF(r, "sweep")[3],
                               !.lc[a].id = IF r.next = "K_DelKw" THEN r.narg ELSE @]
               ELSE IF ~isEnv /\ a = "sweeper" /\ r.next = "K_DelKw"
               THEN [A0 EXCEPT !.lc[a].id = r.narg]
               ELSE A0
-     /\ gh' = GhostNext(gh, st, a, r.site, pred'.inp, st', Obs(r, isEnv \/ known, isEnv \/ (known /\ pred'.st.pc[a] = r.next)))
+     /\ gh' = IF hugeCfg THEN gh ELSE
+              LET g == GhostNext(gh, st, a, r.site, pred'.inp, st', Obs(r, isEnv \/ known, isEnv \/ (known /\ pred'.st.pc[a] = r.next)))
+              IN IF span /\ ~trusted THEN [g EXCEPT !.loose = TRUE] ELSE g
      /\ rep' = LET A == st'
                    \* values near i64::MAX / Duration::MAX are clamped in the trace (two-zone encoding): arithmetic on them is outside the model's range
-                   oor == \/ A.used >= Huge \/ st.used >= Huge \/ A.used <= -Huge
+                   oor == \/ hugeCfg \/ A.used >= Huge \/ st.used >= Huge \/ A.used <= -Huge
                           \/ \E id \in DOMAIN A.kw : A.kw[id].w >= Huge
                           \/ \E n \in DOMAIN A.stats : A.stats[n] >= Huge \/ A.stats[n] <= -Huge
                           \/ \E k \in DOMAIN A.store : A.store[k].exp >= 1000000
                           \/ r.op.w >= Huge \/ r.op.ttl >= 1000000 \/ r.op.ttl_ns # 0   \* (the model's clock has whole seconds)
                           \/ (a \in DOMAIN st.lc /\ (st.lc[a].w >= Huge \/ st.lc[a].cmd.ttl >= 1000000 \/ st.lc[a].cmd.w >= Huge \/ st.lc[a].exp >= 1000000))
-                   div == IF (isEnv \/ known) /\ ~oor THEN DivFields(pred'.st, A, r, pred'.ret) ELSE {}
-                   newV == Judge(st, a, r.site, pred'.inp, A, Obs(r, isEnv \/ known, isEnv \/ (known /\ pred'.st.pc[a] = r.next)), gh, gh')
+                   div == IF (isEnv \/ known) /\ ~oor /\ ~gh.loose THEN DivFields(pred'.st, A, r, pred'.ret) ELSE {}   \* (loose: the locals are stale)
+                   newV == IF hugeCfg THEN J_C17(st, a, r.site, pred'.inp, A, Obs(r, FALSE, FALSE), gh, gh') ELSE
+                           Judge(st, a, r.site, pred'.inp, A, Obs(r, isEnv \/ known, isEnv \/ (known /\ pred'.st.pc[a] = r.next)), gh, gh')
                IN [rep EXCEPT
                      !.steps = @ + 1,
+                     !.lexact = @ + (IF span /\ trusted THEN 1 ELSE 0),
+                     !.lsplit = @ + (IF span /\ ~trusted THEN 1 ELSE 0),
                      !.ndiv = @ + (IF div = {} THEN 0 ELSE 1),
                      !.div = IF div # {} /\ Len(@) < MaxKept
                              THEN Append(@, [run |-> r.run, i |-> r.i, actor |-> a, site |-> r.site, next |-> r.next, fields |-> div])
                              ELSE @,
-                     !.unmodelled = IF ~isEnv /\ ~known THEN @ \cup {r.site} ELSE @,
+                     !.unmodelled = IF ~isEnv /\ ~known /\ trusted THEN @ \cup {r.site} ELSE @,
                      !.oor = @ + (IF oor THEN 1 ELSE 0),
                      !.sites = [x \in DOMAIN @ \cup {r.site} |-> IF x = r.site THEN (IF x \in DOMAIN @ THEN @[x] ELSE 0) + 1 ELSE @[x]],
                      !.nverd = @ + Len(newV),
                      !.verdicts = Merge(@, newV, r.run, r.i)]
+
+\* what a snapshot shows of the state
+DataOf(S) == <<S.store, S.kw, S.used, S.ttl, S.stats, S.shut, S.keepS, S.keepC, S.now, S.ack, Len(S.chan),
+               [i \in DOMAIN S.buf |-> Len(S.buf[i])]>>
+
+\* a sub-step of a span (the actor arrives at a lock point): adopt what is observed, remember the span
+DoSub(r) ==
+  LET a == r.actor
+      A == Adopted(st, r)
+      changed == DataOf(A) # DataOf(st) \/ r.s.qlen # Len(st.queue)
+      old == IF IsL(r.site) /\ a \in DOMAIN lp THEN lp[a] ELSE [site |-> r.site, arg |-> r.arg, ev |-> <<>>, truth |-> <<>>, n |-> 0, dirty |-> FALSE]
+  IN /\ lp' = With(lp, a, [site |-> old.site, arg |-> old.arg, ev |-> old.ev \o r.ev, truth |-> old.truth \o r.truth,
+                           n |-> old.n + 1, dirty |-> old.dirty \/ changed])
+     /\ st' = A
+     /\ gh' = IF changed THEN [gh EXCEPT !.desync = @ \cup {a}] ELSE gh
+     /\ pred' = pred
+     /\ rep' = [rep EXCEPT !.steps = @ + 1, !.lsub = @ + 1]
+
+\* the last record of a span: the specification's step of the span's site
+DoLast(r) ==
+  LET a == r.actor
+      p == IF a \in DOMAIN lp THEN lp[a] ELSE [site |-> r.site, arg |-> r.arg, ev |-> <<>>, truth |-> <<>>, n |-> 0, dirty |-> TRUE]
+      r2 == [r EXCEPT !.site = p.site, !.arg = p.arg, !.ev = p.ev \o r.ev, !.truth = p.truth \o r.truth]
+  IN /\ DoStepK(r2, ~p.dirty, TRUE)
+     /\ lp' = [x \in DOMAIN lp \ {a} |-> lp[x]]
+
+DoStep(r) ==
+  IF r.actor # "env" /\ IsL(r.next) THEN DoSub(r)
+  ELSE IF r.actor # "env" /\ IsL(r.site) THEN DoLast(r)
+  ELSE DoStepK(r, TRUE, FALSE) /\ UNCHANGED lp
 
 Next ==
   /\ l <= Len(Rec)
@@ -204,10 +259,10 @@ Next ==
        CASE r.t = "reset" -> DoReset(r)
          [] r.t = "step" -> DoStep(r)
          [] r.t = "end" /\ r.site \in {"E_End", "E_Stuck"} ->
-              LET vs == JudgeEnd(Adopted(st, r), gh, r.site = "E_Stuck")
-              IN /\ UNCHANGED <<st, gh, pred>>
+              LET vs == IF st.cfg.max >= Huge THEN <<>> ELSE JudgeEnd(Adopted(st, r), gh, r.site = "E_Stuck")
+              IN /\ UNCHANGED <<st, gh, pred, lp>>
                  /\ rep' = [rep EXCEPT !.nverd = @ + Len(vs), !.verdicts = Merge(@, vs, r.run, r.i)]
-         [] OTHER -> UNCHANGED <<st, gh, rep, pred>>
+         [] OTHER -> UNCHANGED <<st, gh, rep, pred, lp>>
 
 Spec == Init /\ [][Next]_vars
 
